@@ -213,10 +213,12 @@ Section Containers.
                              (filter (fun e => key_eqb (l_key e) k && name_eqb (l_dim e) d) L)) dims))
              keys).
 
+  (* `if column_names is not None: X_nested.columns = column_names` *)
   Definition rename_cols (cn : option (list name)) (x : nested) : nested :=
-    mkN (n_kind x) (names_or_default cn (length (n_cols x))) (n_rows x).
+    match cn with Some l => mkN (n_kind x) l (n_rows x) | None => x end.
 
-  (* pivot, from_multi_index_to_nested, then the column labels are REPLACED (column_names or var_i) *)
+  (* pivot, from_multi_index_to_nested; the columns keep the (sorted) dimension identifiers of the
+     long table unless `column_names` is passed *)
   Definition long_to_nested (cn : option (list name)) (L : long) : nested :=
     rename_cols cn (mi_to_nested KSeries (long_pivot L)).
 
